@@ -412,15 +412,20 @@ package swap
 //@ requires @C12 premium-limit: swap.SwapInRequest != nil ==> swap.SwapInAgreement.Premium <= swap.SwapInRequest.PremiumLimit
 //@ requires @C08 keys: swapParams.TakerPubkey == swap.GetTakerPubkey() && swapParams.MakerPubkey == swap.GetMakerPubkey()
 //@ requires @C08,C02 csv: (swap.GetChain() == btc_chain ==> swapParams.CSV == 1008) && ((swap.GetChain() == l_btc_chain && swap.GetProtocolVersion() == 7) ==> swapParams.CSV == 10080) && ((swap.GetChain() == l_btc_chain && swap.GetProtocolVersion() == 6) ==> swapParams.CSV == 60)
-//@ ensures result5 == nil ==> (ghost.opened == old(ghost.opened) + 1 && ghost.openTxId == result2 && ghost.openVout == result4 && ghost.lockedForPreimage == ghost.invPreimage)
+// C08: the hash locked in the output is the hash of the preimage generated for this swap;
+// on Liquid the blinding key handed to the wallet is recorded (the message must carry its hex)
+//@ requires @C08 hash-of-generated-preimage: swapParams.ClaimPaymentHash == ghost.genPreimage.Hash().String()
+//@ ensures result5 == nil ==> (ghost.opened == old(ghost.opened) + 1 && ghost.openTxId == result2 && ghost.openVout == result4)
 //@ ensures result5 != nil ==> ghost.opened == old(ghost.opened)
-//@ assigns ghost.opened, ghost.openTxId, ghost.openVout, ghost.lockedForPreimage, swapParams.OpeningAddress
+//@ sets ghost.walletBlindingKey = swapParams.BlindingKey
+//@ assigns ghost.opened, ghost.openTxId, ghost.openVout, swapParams.OpeningAddress
 
 //@ interface LightningClient.GetPayreq
 //@ ensures result1 == nil ==> (uf("payreqMsat", uint64(0), result0) == msatAmount && uf("payreqCltv", int64(0), result0) == int64(expiryCltv) && uf("payreqExpiry", uint64(0), result0) == expirySeconds)
 // the node builds the invoice for the preimage it is given (C08: the hash locked in the output is that preimage's)
-//@ ensures result1 == nil ==> (uf("payreqPreimage", "", result0) == preimage && ghost.invPreimage == preimage)
-//@ assigns ghost.invPreimage
+//@ ensures result1 == nil ==> uf("payreqPreimage", "", result0) == preimage
+//@ requires @C08,in:swap invoice-for-generated-preimage: invoiceType == INVOICE_CLAIM ==> preimage == ghost.genPreimage.String()
+//@ assigns nothing
 
 //@ interface TxWatcher.AddWaitForCsvTx
 //@ requires @C07,C08 output: txID == swap.OpeningTxBroadcasted.TxId && vout == swap.OpeningTxBroadcasted.ScriptOut
@@ -874,12 +879,17 @@ package swap
 // Proved for the broadcast state of both maker tables; the record is frozen
 // afterwards (C07 record-frozen) and the announce state sends the marshalled record.
 // ---------------------------------------------------------------------------
-//@ ghost invPreimage string
 //@ stepinv getSwapInSenderStates BroadcastState @C08 announced-tx: (result == Event_ActionSucceeded && old(swap.OpeningTxBroadcasted) == nil) ==> (swap.OpeningTxBroadcasted != nil && swap.OpeningTxBroadcasted.TxId == ghost.openTxId && swap.OpeningTxBroadcasted.ScriptOut == ghost.openVout && ghost.opened == old(ghost.opened) + 1)
 //@ stepinv getSwapOutReceiverStates BroadcastState @C08 announced-tx: (result == Event_ActionSucceeded && old(swap.OpeningTxBroadcasted) == nil) ==> (swap.OpeningTxBroadcasted != nil && swap.OpeningTxBroadcasted.TxId == ghost.openTxId && swap.OpeningTxBroadcasted.ScriptOut == ghost.openVout && ghost.opened == old(ghost.opened) + 1)
 //@ stepinv getSwapInSenderStates BroadcastState @C08 announced-invoice: (result == Event_ActionSucceeded && old(swap.OpeningTxBroadcasted) == nil) ==> (uf("payreqMsat", uint64(0), swap.OpeningTxBroadcasted.Payreq) == swap.GetClaimAmount()*1000 && (swap.GetChain() == btc_chain ==> (uf("payreqCltv", int64(0), swap.OpeningTxBroadcasted.Payreq) == 503 && uf("payreqExpiry", uint64(0), swap.OpeningTxBroadcasted.Payreq) == 86400)) && (swap.GetChain() == l_btc_chain ==> (uf("payreqCltv", int64(0), swap.OpeningTxBroadcasted.Payreq) == 29 && uf("payreqExpiry", uint64(0), swap.OpeningTxBroadcasted.Payreq) == 3600)))
 //@ stepinv getSwapOutReceiverStates BroadcastState @C08 announced-invoice: (result == Event_ActionSucceeded && old(swap.OpeningTxBroadcasted) == nil) ==> (uf("payreqMsat", uint64(0), swap.OpeningTxBroadcasted.Payreq) == swap.GetClaimAmount()*1000 && (swap.GetChain() == btc_chain ==> (uf("payreqCltv", int64(0), swap.OpeningTxBroadcasted.Payreq) == 503 && uf("payreqExpiry", uint64(0), swap.OpeningTxBroadcasted.Payreq) == 86400)) && (swap.GetChain() == l_btc_chain ==> (uf("payreqCltv", int64(0), swap.OpeningTxBroadcasted.Payreq) == 29 && uf("payreqExpiry", uint64(0), swap.OpeningTxBroadcasted.Payreq) == 3600)))
-//@ ghost lockedForPreimage string
+//@ stepinv getSwapInSenderStates BroadcastState @C08 announced-blinding-key: (result == Event_ActionSucceeded && old(swap.OpeningTxBroadcasted) == nil && swap.GetChain() == l_btc_chain) ==> swap.OpeningTxBroadcasted.BlindingKey == hex.EncodeToString(ghost.walletBlindingKey.Serialize())
+//@ stepinv getSwapInSenderStates BroadcastState @C08 no-blinding-key-on-bitcoin: (result == Event_ActionSucceeded && old(swap.OpeningTxBroadcasted) == nil && swap.GetChain() != l_btc_chain) ==> swap.OpeningTxBroadcasted.BlindingKey == ""
+//@ stepinv getSwapOutReceiverStates BroadcastState @C08 announced-blinding-key: (result == Event_ActionSucceeded && old(swap.OpeningTxBroadcasted) == nil && swap.GetChain() == l_btc_chain) ==> swap.OpeningTxBroadcasted.BlindingKey == hex.EncodeToString(ghost.walletBlindingKey.Serialize())
+//@ stepinv getSwapOutReceiverStates BroadcastState @C08 no-blinding-key-on-bitcoin: (result == Event_ActionSucceeded && old(swap.OpeningTxBroadcasted) == nil && swap.GetChain() != l_btc_chain) ==> swap.OpeningTxBroadcasted.BlindingKey == ""
+//@ ghost walletBlindingKey *btcec.PrivateKey
+//@ extern secp256k1 (PrivateKey).Serialize
+//@ pure
 
 // ---------------------------------------------------------------------------
 // C26 (refusal side): the node does not start a swap with a peer that forced a
